@@ -816,7 +816,7 @@ func c11GenStep(t *rapid.T, c *c11Case) c11Step {
 		}
 		return st
 	case k < 6:
-		return c11Step{Op: "lengths", Nsamp: rapid.SampledFrom([]int{c.Nsamp, 20, 64, 0, -5, 4, 3, 150, 1 << 30, 1<<31 + 7, 1 << 62}).Draw(t, "ns"), Npre: rapid.SampledFrom([]int{c.Npre, 3, 10, 0, -1, 2, 63, 200}).Draw(t, "np")}
+		return c11Step{Op: "lengths", Nsamp: rapid.SampledFrom([]int{c.Nsamp, 20, 64, 0, -5, 4, 3, 150, 1 << 30, 1<<31 + 7, 1 << 62}).Draw(t, "ns"), Npre: rapid.SampledFrom([]int{c.Npre, 3, 10, 0, -1, 2, 63, 200, 1 << 62, 1<<63 - 1}).Draw(t, "np")}
 	case k < 8:
 		return c11Step{Op: "proj", Src: idx("pchan"), Flag: rapid.Bool().Draw(t, "which"),
 			Kind: rapid.SampledFrom([]string{"valid", "valid", "wrongshape", "mismatched", "truncated", "short", "empty", "hugeheader", "garbage", "badbase64"}).Draw(t, "pkind")}
